@@ -34,6 +34,23 @@ def gen(ck, params, cfgs):
             pairs.append(("sum equal", base, b2, s))
             s2 = [row[:] for row in s]; s2[cm][i] = (s2[cm][i] + 1) % ps[cm]
             pairs.append(("sum differs at (%d,%d)" % (cm, i), base, b2, s2))
+        # non-zero polynomials on which an aggregate of the words vanishes (a conversion to bool computed as sum / xor / or of narrowed words
+        # instead of a search for a non-zero word answers false on them): words summing to 0 modulo 2^w (and modulo 2^32), equal pairs
+        B = 1 << w
+        def summing(mod):
+            for cm, p in enumerate(ps):
+                if n < 5: continue
+                last = (-4 * (p - 1)) % mod
+                if 0 < last < p:
+                    a_ = [row[:] for row in zero]; a_[cm][0] = a_[cm][1] = a_[cm][n // 2] = a_[cm][n - 1] = p - 1; a_[cm][2] = last
+                    return a_
+            return None
+        for mod_, tg in ((B, "2^w"), (1 << 32, "2^32"), (1 << 16, "2^16")):
+            if mod_ > B: continue
+            a_ = summing(mod_)
+            if a_: pairs.append(("non-zero, words sum to 0 modulo %s" % tg, a_, zero, a_))
+        x_ = [row[:] for row in zero]; v_ = 1 + ck.rng.randrange(ps[-1] - 1); x_[-1][0] = v_; x_[-1][n - 1] = v_
+        if n >= 2: pairs.append(("non-zero, words xor to 0", x_, zero, x_))
         for tag, a, b, c in pairs:
             words = "%s %s %s" % (nc.flat(a), nc.flat(b), nc.flat(c))
             for si, (name, cpp, tree) in enumerate(ec.BOOLS):
